@@ -94,7 +94,9 @@ class ChartGen:
         if k.cflags and c < 0.35:
             return 'c%d' % r.randrange(k.cflags)
         if post and c < 0.6:
-            return r.choice(['x >= __old__.x', 'y >= __old__.y or x >= 0', '__old__.x <= x + 1'])
+            return r.choice(['x >= __old__.x', 'y >= __old__.y or x >= 0', '__old__.x <= x + 1',
+                             'x - __old__.x < %d' % r.randint(3, 9), 'x - __old__.x < %d' % r.randint(3, 9),
+                             '__old__.seen <= seen', 'x != __old__.x + %d' % r.randint(2, 6)])
         if c < 0.75:
             return r.choice(["not sent('zz')", "sent('e') or x >= 0", "not received('zz')",
                              "received('e') or True"])
